@@ -19,7 +19,7 @@ SPEC_BUILTINS = {
     "allocated", "content_unchanged", "field_unchanged", "is_none", "not_none", "seq_len", "seq_at", "disjoint",
     "mmap_of", "mset_of", "let", "Real", "Int", "TRUE", "FALSE", "INF", "null", "mset_remove", "same_object",
     "is_open_state", "lemma", "select", "store", "trunc0", "cls_of", "idiv", "imod", "to_real", "to_int", "floor",
-    "inflt", "clock", "at_suspend", "ENTRY", "mkval", "val_at", "mmap_add", "mmap_sub", "nonempty", "msum", "sum_axiom_bound", "sum_axiom_eq", "sum_axiom_update", "sum_axiom_remove", "sum_axiom_insert", "sum_axiom_empty", "mset_single", "mmap_empty", "mmap_put", "pure_call", "unchanged_except", "xor", "distinct", "log_factory_restored", "stages_in_order", "ifdef", "wsum", "dec", "strp", "ufun", "rank", "trade_when", "trade_price", "trade_amount",
+    "inflt", "clock", "at_suspend", "ENTRY", "mkval", "val_at", "mmap_add", "mmap_sub", "nonempty", "msum", "sum_axiom_bound", "sum_axiom_eq", "sum_axiom_update", "sum_axiom_remove", "sum_axiom_insert", "sum_axiom_empty", "mset_single", "mmap_empty", "mmap_put", "pure_call", "unchanged_except", "xor", "distinct", "log_factory_restored", "stages_in_order", "ifdef", "wsum", "dec", "strp", "ufun", "rank", "gathered_count", "trade_when", "trade_price", "trade_amount",
 }
 
 unit = z3.Function("unit", z3.IntSort(), z3.RealSort())
